@@ -12,7 +12,7 @@
 //! on neither side.
 #![allow(dead_code)]
 
-use super::prog::{Isa, Program};
+use super::prog::{Isa, Kind, Program};
 use falcon::architecture::Architecture;
 use falcon::executor::{Driver, Memory as ExMemory, State};
 use falcon::il;
@@ -64,6 +64,10 @@ pub struct Trace {
     /// (reference run of the function) a Branch operation continued at the head of a native
     /// instruction's graph that is not "the first Instruction with the given address"
     pub first_instruction_rule_differs: bool,
+    /// (stepper) the unit at this address has a ground truth (a plain instruction or a direct
+    /// branch the generator emitted: kind, addresses at which the machine code continues) and the
+    /// execution ended there with a fault that contradicts it
+    pub contradiction: Option<(u64, Kind, Vec<u64>)>,
 }
 
 /// what the digests range over
@@ -269,6 +273,11 @@ fn run_graph(view: &FnView, state: RefState) -> Result<(RefState, Option<u64>, b
     Err("graph-step-limit".into())
 }
 
+fn show_successors(s: &[(u64, Option<il::Expression>)]) -> String {
+    let v: Vec<String> = s.iter().map(|(a, c)| format!("0x{:x} if {}", a, c.as_ref().map(|c| c.to_string()).unwrap_or("true".into()))).collect();
+    format!("[{}]", v.join(", "))
+}
+
 #[allow(clippy::too_many_arguments)]
 pub fn run_stepper(p: &Program, units: &BTreeMap<u64, Unit>, init: &RefState, lifted: &BTreeSet<u64>, w: &Watch, cap: usize, snapshot_at: Option<usize>) -> Trace {
     let mut rec = Rec::new(cap, snapshot_at);
@@ -279,8 +288,20 @@ pub fn run_stepper(p: &Program, units: &BTreeMap<u64, Unit>, init: &RefState, li
     // an event-free stretch consists of direct branches only; longer than the program = a cycle
     let idle_limit = p.insns.len() + 8;
     let to_no_il = std::cell::Cell::new(false);
+    let contradiction: std::cell::RefCell<Option<(u64, Kind, Vec<u64>)>> = std::cell::RefCell::new(None);
     let fin = |rec: Rec, end: End, state: RefState, md: u64, taken: usize, note: String| -> Trace {
-        Trace { evs: rec.evs, end, final_digest: scal_digest_ref(w, &state) ^ md.rotate_left(1), taken, snapshot: rec.snapshot, final_state: Some(state), note, branch_to_no_il: to_no_il.get(), first_instruction_rule_differs: false }
+        Trace { evs: rec.evs, end, final_digest: scal_digest_ref(w, &state) ^ md.rotate_left(1), taken, snapshot: rec.snapshot, final_state: Some(state), note, branch_to_no_il: to_no_il.get(), first_instruction_rule_differs: false, contradiction: contradiction.borrow().clone() }
+    };
+    // the generator's ground truth for the unit at `pc`: kind and continuation addresses of a plain
+    // instruction / a direct branch it emitted, when all of them are lifted
+    let truth_of = |pc: u64| -> Option<(u64, Kind, Vec<u64>)> {
+        let k = *p.by_addr.get(&pc)?;
+        let t = p.succ_addrs(k)?;
+        if t.iter().all(|a| lifted.contains(a)) {
+            Some((pc, p.insns[k].kind, t))
+        } else {
+            None
+        }
     };
     loop {
         if rec.idle > idle_limit {
@@ -344,19 +365,29 @@ pub fn run_stepper(p: &Program, units: &BTreeMap<u64, Unit>, init: &RefState, li
                     };
                     if on {
                         if chosen.is_some() && chosen != Some(*a) {
-                            return fin(rec, End::Fault("two-successors".into()), state, md, taken, String::new());
+                            *contradiction.borrow_mut() = truth_of(pc);
+                            return fin(rec, End::Fault("two-successors".into()), state, md, taken, format!("unit 0x{:x}: successors {}", pc, show_successors(&u.successors)));
                         }
                         chosen = Some(*a);
                     }
                 }
                 match chosen {
                     Some(a) => {
+                        if let Some(t) = truth_of(pc) {
+                            if !t.2.contains(&a) {
+                                *contradiction.borrow_mut() = Some(t);
+                                return fin(rec, End::Fault("successor-not-in-ground-truth".into()), state, md, taken, format!("unit 0x{:x} continues at 0x{:x}: successors {}", pc, a, show_successors(&u.successors)));
+                            }
+                        }
                         if u.is_branch && a != u.fallthrough {
                             taken += 1;
                         }
                         a
                     }
-                    None => return fin(rec, End::Fault("no-successor".into()), state, md, taken, format!("unit 0x{:x}", pc)),
+                    None => {
+                        *contradiction.borrow_mut() = truth_of(pc);
+                        return fin(rec, End::Fault("no-successor".into()), state, md, taken, format!("unit 0x{:x}: successors {}", pc, show_successors(&u.successors)));
+                    }
                 }
             }
         };
@@ -440,7 +471,7 @@ pub fn run_ref(isa: Isa, view: &FnView, init: &RefState, lifted: &BTreeSet<u64>,
     let mut m = match Machine::new(view, init.clone()) {
         Ok(m) => m,
         Err(f) => {
-            return Trace { evs: vec![], end: End::Fault(format!("entry:{}", f.kind())), final_digest: 0, taken: 0, snapshot: None, final_state: None, note: String::new(), branch_to_no_il: false, first_instruction_rule_differs: false };
+            return Trace { evs: vec![], end: End::Fault(format!("entry:{}", f.kind())), final_digest: 0, taken: 0, snapshot: None, final_state: None, note: String::new(), branch_to_no_il: false, first_instruction_rule_differs: false, contradiction: None };
         }
     };
     let mut md = mem_digest_ref(w, &m.state);
@@ -571,7 +602,7 @@ pub fn run_ref(isa: Isa, view: &FnView, init: &RefState, lifted: &BTreeSet<u64>,
         }
     };
     let fd = scal_digest_ref(w, &m.state) ^ md.rotate_left(1);
-    Trace { evs: rec.evs, end, final_digest: fd, taken: 0, snapshot: rec.snapshot, final_state: Some(m.state), note, branch_to_no_il: false, first_instruction_rule_differs }
+    Trace { evs: rec.evs, end, final_digest: fd, taken: 0, snapshot: rec.snapshot, final_state: Some(m.state), note, branch_to_no_il: false, first_instruction_rule_differs, contradiction: None }
 }
 
 // ---------------------------------------------------------------------------------------------
@@ -583,7 +614,7 @@ pub fn run_block(view: &FnView, init: &RefState, w: &Watch, cap: usize) -> Trace
     let mut m = match Machine::new(view, init.clone()) {
         Ok(m) => m,
         Err(f) => {
-            return Trace { evs: vec![], end: End::Fault(format!("entry:{}", f.kind())), final_digest: 0, taken: 0, snapshot: None, final_state: None, note: String::new(), branch_to_no_il: false, first_instruction_rule_differs: false };
+            return Trace { evs: vec![], end: End::Fault(format!("entry:{}", f.kind())), final_digest: 0, taken: 0, snapshot: None, final_state: None, note: String::new(), branch_to_no_il: false, first_instruction_rule_differs: false, contradiction: None };
         }
     };
     let mut md = mem_digest_ref(w, &m.state);
@@ -623,7 +654,7 @@ pub fn run_block(view: &FnView, init: &RefState, w: &Watch, cap: usize) -> Trace
         }
     };
     let fd = scal_digest_ref(w, &m.state) ^ md.rotate_left(1);
-    Trace { evs: rec.evs, end, final_digest: fd, taken: 0, snapshot: None, final_state: Some(m.state), note, branch_to_no_il: false, first_instruction_rule_differs: false }
+    Trace { evs: rec.evs, end, final_digest: fd, taken: 0, snapshot: None, final_state: Some(m.state), note, branch_to_no_il: false, first_instruction_rule_differs: false, contradiction: None }
 }
 
 // ---------------------------------------------------------------------------------------------
@@ -637,7 +668,7 @@ pub fn run_driver(isa: Isa, function: &il::Function, arch: RC<dyn Architecture>,
         Ok(Loc::Instr(b, i)) => il::FunctionLocation::Instruction(b, i),
         Ok(Loc::Empty(b)) => il::FunctionLocation::EmptyBlock(b),
         _ => {
-            return Trace { evs: vec![], end: End::Fault("entry".into()), final_digest: 0, taken: 0, snapshot: None, final_state: None, note: String::new(), branch_to_no_il: false, first_instruction_rule_differs: false };
+            return Trace { evs: vec![], end: End::Fault("entry".into()), final_digest: 0, taken: 0, snapshot: None, final_state: None, note: String::new(), branch_to_no_il: false, first_instruction_rule_differs: false, contradiction: None };
         }
     };
     let mut program = il::Program::new();
@@ -723,7 +754,7 @@ pub fn run_driver(isa: Isa, function: &il::Function, arch: RC<dyn Architecture>,
     };
     let fd = scal_digest_falcon(w, driver.state()) ^ md.rotate_left(1);
     let fs = falcon_to_ref(w, driver.state(), big);
-    Trace { evs: rec.evs, end, final_digest: fd, taken: 0, snapshot: rec.snapshot, final_state: Some(fs), note, branch_to_no_il: false, first_instruction_rule_differs: false }
+    Trace { evs: rec.evs, end, final_digest: fd, taken: 0, snapshot: rec.snapshot, final_state: Some(fs), note, branch_to_no_il: false, first_instruction_rule_differs: false, contradiction: None }
 }
 
 pub fn error_kind(e: &falcon::Error) -> String {
